@@ -35,7 +35,10 @@ StepSur ==
       srv == [got |-> Ev.result.probe.got, cost |-> Ev.result.probe.price]
       cli == [got |-> Ev.result.client.got, cost |-> Ev.result.client.cost]
       exp == HandleSUR(cs, r)
-      conc == "concurrent" \in DOMAIN Ev     \* sent together with other subscribers' requests; CHF-side decoding not repeated
+      \* sent together with other subscribers' requests: CHF-side decoding not repeated; or the tree's decoding helper could
+      \* not be reached by the harness (another signature): CHF-side clauses not evaluated, reported as a divergence
+      unav == "unavailable" \in DOMAIN Ev.result.client
+      conc == "concurrent" \in DOMAIN Ev \/ unav
       V(c) == [prop |-> "C08", clause |-> c, trace |-> Ev.trace, step |-> Ev.seq,
                sit |-> [class |-> Class(cs), sub |-> r.sub, concurrent |-> conc]]
   IN /\ viol' = viol
@@ -44,7 +47,8 @@ StepSur ==
           \cup (IF ReserveAllowedFloor(cs, r, obs) THEN {} ELSE {V("reserve_allowed_floor")})
           \cup (IF conc \/ ClientAgrees(srv, cli) THEN {} ELSE {V("client_cost_equals_server")})
           \cup (IF conc \/ ClientCostIsStored(cs, cli) THEN {} ELSE {V("client_cost_is_stored")})
-     /\ div' = div \cup (IF Class(cs) = "other" \/ (exp.got = obs.got /\ (exp.got => (exp.price = obs.price /\ exp.allowed = obs.allowed)))
+     /\ div' = div \cup (IF unav THEN {[trace |-> "all", step |-> 0, class |-> "CHF-side tariff decoding not reachable", sub |-> ""]} ELSE {})
+                   \cup (IF Class(cs) = "other" \/ (exp.got = obs.got /\ (exp.got => (exp.price = obs.price /\ exp.allowed = obs.allowed)))
                          THEN {} ELSE {[trace |-> Ev.trace, step |-> Ev.seq, class |-> Class(cs), sub |-> r.sub]})
 Step == Ev.action = "sur" /\ StepSur
 Finish == /\ l = Len(Trace) + 1
